@@ -414,7 +414,7 @@ def gen_variants(rng, n_programs, sizes=(2, 3, 4)):
             r = rng.random()
             if r < 0.55 and k >= 2:
                 f = rng.choice(fields)
-                p["elements"][f]["present"] = rng.choice(["ser", "deser", "readonly"])
+                p["elements"][f]["present"] = rng.choice(["ser", "deser", "readonly", "initvar"])
             if 0.4 < r < 0.8:
                 f = rng.choice(fields)
                 p["elements"][f]["alias"] = "X" + f
@@ -444,7 +444,7 @@ def gen_presence_exhaustive():
             for combo in enum_specs(names):
                 eff = dict(zip(names, combo))
                 for f in fields:
-                    for pres in ("ser", "deser", "readonly"):
+                    for pres in ("ser", "deser", "readonly", "initvar"):
                         p = base_prog(fields, methods, eff, "field-metadata")
                         p["elements"][f]["present"] = pres
                         yield p
